@@ -214,9 +214,53 @@ func TestC17(t *testing.T) {
 			pl.Close()
 		}
 	}
+	// every value once more in ONE pipeline (Put for even, GetPut for odd positions), executed after everything is queued
+	if pl, err := clients[2].dm.Pipeline(); err == nil {
+		type fut struct {
+			i   int
+			res func() error
+		}
+		var futs []fut
+		for i, v := range vals {
+			i, v := i, v
+			if i%2 == 0 {
+				f, err := pl.Put(ctx, keyOf(i, "batch"), v)
+				if err != nil {
+					futs = append(futs, fut{i, func() error { return err }})
+					continue
+				}
+				futs = append(futs, fut{i, f.Result})
+			} else {
+				f, err := pl.GetPut(ctx, keyOf(i, "batch"), v)
+				if err != nil {
+					futs = append(futs, fut{i, func() error { return err }})
+					continue
+				}
+				futs = append(futs, fut{i, func() error {
+					_, err := f.Result()
+					if err == olric.ErrNilResponse || err == olric.ErrKeyNotFound {
+						return nil
+					}
+					return err
+				}})
+			}
+		}
+		xerr := pl.Exec(ctx)
+		for _, f := range futs {
+			err := xerr
+			if err == nil {
+				err = f.res()
+			}
+			if err != nil {
+				n++
+				w.Emit(trace.Ev{"t": "rt", "n": n, "type": fmt.Sprintf("%T", vals[f.i]), "inv": render(vals[f.i]), "outv": "", "ret": "put:" + classify(err).Ret, "stage": "write", "path": "batch"})
+			}
+		}
+		pl.Close()
+	}
 	readAll := func(stage string) {
 		for i, v := range vals {
-			for _, wr := range []string{"emb@0", "emb@1", "cc", "pipe"} {
+			for _, wr := range []string{"emb@0", "emb@1", "cc", "pipe", "batch"} {
 				rd := clients[rng.Intn(len(clients))]
 				g, err := rd.dm.Get(ctx, keyOf(i, wr))
 				n++
